@@ -502,6 +502,8 @@ pub fn rule_from_grid(id: &str, rank: u16, g: Grid) -> RuleSpec {
         1 => vec![("override".to_string(), "X-Shared".to_string(), mark(id))],
         2 => vec![("add".to_string(), format!("X-{id}"), mark(id))],
         3 => vec![("remove".to_string(), "X-Rm".to_string(), String::new())],
+        // the very same filter in every rule that carries it: identical filters from different rules must all apply
+        5 => vec![("add".to_string(), "X-Dup".to_string(), "same".to_string())],
         _ => vec![("default".to_string(), "X-Shared".to_string(), mark(id)), ("replace".to_string(), "x-shared".to_string(), mark(id))],
     };
     e.body_filters = match g.body {
@@ -518,7 +520,7 @@ fn random_grid(rng: &mut Rng) -> Grid {
         cond: rng.below(CONDS.len()),
         flags: if rng.chance(1, 2) { 0 } else { rng.below(FLAGS.len()) },
         log: rng.below(LOGS.len()),
-        hdr: rng.below(5),
+        hdr: rng.below(6),
         body: rng.below(3),
         sampling: if rng.chance(2, 3) { 0 } else { rng.below(SAMPLINGS.len()) },
         target: rng.below(3),
